@@ -126,7 +126,7 @@ def _install_common(it, cache_checks):
     it.module_env(O).vars["_selector_fit_cache"] = cache
 
 
-@unit("proceed", ["C03", "C07", "C04"], [PROCEED, O + ":HandlerCollection.__init__", I + ":Interactor.__init__"], replay=_replay_file("c03_proceed.py"),
+@unit("proceed", ["C03", "C07", "C04", "C09"], [PROCEED, O + ":HandlerCollection.__init__", I + ":Interactor.__init__"], replay=_replay_file("c03_proceed.py"),
       assumed=["fits_selector is used through its contract (deterministic function of (fn, selector): False or a capture map)",
                "Interactor.register is used through its contract (one ghost event per call)",
                "accumulator.fork() of an opaque accumulator returns a fresh accumulator determined by the history"])
@@ -167,7 +167,7 @@ def u_proceed(c):
                                                                           it.to_val(v) == Val.ref(p_cm(i)) if v is not False else True), kind="auxiliary")
 
 
-@unit("proceed-bounded", ["C03", "C07", "C04"], [PROCEED], mode="bounded", bound="2 pending pairs, <=1 child each, all flag combinations",
+@unit("proceed-bounded", ["C03", "C07", "C04", "C09"], [PROCEED], mode="bounded", bound="2 pending pairs (own accumulators, or siblings sharing one), <=1 child each, all flag combinations",
       fallback_for="proceed", max_paths=20000, replay=_replay_file("c03_proceed.py"))
 def u_proceed_b(c):
     """Bounded stand-in for 'proceed' with concrete flags (no solver involved): compared against the same meaning computed in Python."""
@@ -204,6 +204,12 @@ def u_proceed_b(c):
         fk = SummaryFn("fork", fork)
         fk.is_method = True
         acc = SymObj(f"acc{i}", Val.ref(z3.IntVal(c.new_id())), attrs={"template": m["tmpl"], "fork": fk})
+        if i == 1 and c.choose(2, "siblings-share-the-accumulator"):
+            # f(g(x), h(y)): the sub-selectors of one parent are pending with the SAME accumulator; entering one of them must
+            # leave the other pending (it stays current for the whole frame, e.g. while a generator is suspended)
+            acc = pairs[0][1]
+            m["tmpl"] = meta[0][0]["tmpl"]
+            m["fork_owner"] = 0
         pairs.append((sel, acc))
         meta.append((m, sel, acc, kids))
     hc = mk_obj(it, O, "HandlerCollection", handler_pairs=list(pairs))
@@ -222,7 +228,7 @@ def u_proceed_b(c):
         if m["fits"]:
             a = acc
             if m["foc"] or m["tmpl"]:
-                if fi < len(forks) and forks[fi][0] == i:
+                if fi < len(forks) and forks[fi][0] == m.get("fork_owner", i):
                     a = forks[fi][1]
                     fi += 1
                 else:
@@ -313,7 +319,7 @@ def _ce_uf(it, f, args, kwargs):
     return concretize(SBool(fs_ce(it.to_val(el), it.to_val(name), it.to_val(cat))))
 
 
-@unit("fits_selector", ["C03", "C10", "C11"], [O + ":fits_selector"], mode="bounded",
+@unit("fits_selector", ["C03", "C10", "C11", "C06", "C02"], [O + ":fits_selector"], mode="bounded",
       bound="<=2 captures per selector level, <=3 variables in the function table (concrete spine, symbolic matching)")
 def u_fits(c):
     """fits_selector(fn, sel) is False iff the function element mismatches (name / return-annotation tag) or some capture
@@ -329,8 +335,10 @@ def u_fits(c):
     el = SymObj("fel", Val.ref(z3.IntVal(c.new_id())))
     caps = []
     for i in range(c.choose(3)):
-        kind = c.choose(4)
-        name = [None, "a", "zz.attr", "#value"][kind]
+        kind = c.choose(7)
+        # meta-variables are located in every function, whatever their spelling (loop markers carry the loop variable's name,
+        # which may itself contain underscores or dots)
+        name = [None, "a", "zz.attr", "#value", "#loop_row_idx", "#endloop_zz_a", "#loop_b"][kind]
         if kind == 2 and c.choose(2):
             name = "b.attr"
         caps.append(SymObj(f"cap{i}", Val.ref(z3.IntVal(c.new_id())), attrs={"name": name}))
